@@ -71,6 +71,16 @@ func scenarios(prop, tier string) []*Scenario {
 				Maint: []hdr.Op{{K: "cleand", D: 3}}, Slots: []string{"a", "H"}},
 			&Scenario{Name: "genesis/grow+growside-prune-depth-2", Cfg: hdr.Config{MaxBranchDepth: 1}, N: pick(4, 5), M: 1, Grows: 1, GrowBy: 3, GrowSides: 1, GrowSideBy: 3,
 				Maint: []hdr.Op{{K: "cleand", D: 2}}, Slots: []string{"a", "H"}},
+			// the same shapes across a restart that keeps 3 headers: a side branch whose fork point is
+			// below what the restart keeps is not restored, and neither is a branch of that branch -
+			// whatever is restored and later grows has to be able to take over
+			&Scenario{Name: "genesis/grow+growside-restart-depth-3", Cfg: hdr.Config{MaxBranchDepth: 2}, N: pick(4, 5), M: 1, Grows: 1, GrowBy: 4, GrowSides: 1, GrowSideBy: 4,
+				Maint: []hdr.Op{{K: "reloadd", D: 3}}},
+			// a long side branch that stays behind (growx) with a branch of its own: after the growth of
+			// the best chain and the restart the outer one cannot be restored (its fork point is below
+			// what is kept), the inner one hangs off it - and then grows past the reported chain
+			&Scenario{Name: "genesis/nested-forks+grow+restart-depth-3", Cfg: hdr.Config{MaxBranchDepth: 2}, N: 3, M: 1, Grows: 1, GrowBy: 4, GrowXs: 1, GrowXBy: 3, GrowSides: 1, GrowSideBy: 4,
+				Maint: []hdr.Op{{K: "reloadd", D: 3}}},
 		)
 		// marking and unmarking (C17's operations) inside C01's histories: a header that was removed
 		// and is acceptable again must be selected like any other
@@ -249,6 +259,13 @@ func scenarios(prop, tier string) []*Scenario {
 			r = append(r, &Scenario{Name: "legacy-files-" + itoa(base+1) + "-headers", Cfg: hdr.Config{MaxBranchDepth: 144, Base: base, Legacy: true, Invalid: []string{hdr.BaseLabel(base) + "/a"}},
 				N: pick(3, 4), M: 2, Maint: []hdr.Op{opReload}, Attach: []int{0, -1}, Slots: []string{"a", "H"}, Probes: true})
 		}
+		// a small fork-depth limit with the full retained depth: side branches that end further below
+		// the tip than new forks may start are still held, still extendable, and must come back
+		r = append(r,
+			&Scenario{Name: "genesis/reload-anywhere/maxdepth-1", Cfg: hdr.Config{MaxBranchDepth: 1}, N: pick(6, 7), M: 2,
+				Maint: []hdr.Op{opReload, opSave}, Slots: []string{"a", "H"}},
+			&Scenario{Name: "genesis/prune-depth-4/maxdepth-1", Cfg: hdr.Config{MaxBranchDepth: 1}, N: pick(6, 7), M: 2,
+				Maint: []hdr.Op{{K: "reloadd", D: 4}, {K: "cleand", D: 4}}, Slots: []string{"a", "H"}})
 		for _, s := range r {
 			s.oracles = []oracle{oracleC11, oracleC01, oracleC08verdict}
 		}
@@ -380,6 +397,15 @@ func scenarios(prop, tier string) []*Scenario {
 			&Scenario{Name: "synthetic-splits/depth-2", Cfg: hdr.Config{MaxBranchDepth: 2, Splits: "synth"}, N: pick(6, 7), M: 1,
 				Maint: []hdr.Op{opClean}, Probes: true},
 		)
+		// the chain has grown past the split heights and the headers around them are pruned from
+		// memory (Clean / restart keeping 2 or 3 headers): the foreign split headers - whose parents
+		// are then known only by height - are still refused as wrong chain
+		r = append(r,
+			&Scenario{Name: "synthetic-splits/grown+pruned-depth-2", Cfg: hdr.Config{MaxBranchDepth: 1, Splits: "synth"}, N: pick(3, 4), M: 1, Grows: 1, GrowBy: 5,
+				Maint: []hdr.Op{{K: "cleand", D: 2}, {K: "reloadd", D: 2}}, Slots: []string{"a", "b"}},
+			&Scenario{Name: "synthetic-splits/grown+pruned-depth-3", Cfg: hdr.Config{MaxBranchDepth: 2, Splits: "synth"}, N: pick(3, 4), M: 1, Grows: 1, GrowBy: 5,
+				Maint: []hdr.Op{{K: "cleand", D: 3}, {K: "reloadd", D: 3}}, Slots: []string{"a", "b"}},
+		)
 		for _, s := range r {
 			s.oracles = []oracle{oracleC03repo, oracleC08verdict, oracleC01}
 			s.ForeignProbes = true
@@ -403,6 +429,15 @@ func scenarios(prop, tier string) []*Scenario {
 			r = append(r, &Scenario{Name: baseName(base), Cfg: hdr.Config{MaxBranchDepth: 144, Base: base}, N: pick(2, 3), M: 2,
 				Maint: []hdr.Op{opClean, opSave}, Attach: []int{0, -1}, Slots: []string{"a", "H"}})
 		}
+		// three branches need six headers before a stop can separate them: a main chain, a side
+		// branch from below and one from above, a completed Save, then the lower one overtaking and
+		// the upper one tying it
+		r = append(r, &Scenario{Name: "prefix-2/crash-in-clean-save/4-more-headers", Cfg: hdr.Config{MaxBranchDepth: 144, Prefix: 2}, N: 4, M: 2,
+			Maint: []hdr.Op{opClean, opSave}})
+		// a header of the saved chain is marked invalid before the next Save / Clean: what the old
+		// index still lists can then be heavier than everything that is left
+		r = append(r, &Scenario{Name: "genesis/crash-in-clean-save-after-mark", Cfg: hdr.Config{MaxBranchDepth: 144}, N: pick(4, 5), Marks: 1, MarkOnlyKnown: true, M: 2,
+			Maint: []hdr.Op{opClean, opSave}})
 		for _, s := range r {
 			s.oracles = []oracle{oracleC12}
 		}
